@@ -149,6 +149,7 @@ type Sim struct {
 	schedHash  uint64
 	trace      []string
 	TraceLimit int
+	MapOrder   bool // tape-chosen iteration order of maps in rewritten code (plan cfg "maporder")
 
 	Faults map[string]int
 	Probes map[string]int
